@@ -308,3 +308,20 @@ META['C14'] = dict(
     technique='runtime trace monitoring under the race detector on virtual time (hunt confinement) + differential monitoring of the learned router table against refdec',
     level_text='Exploration: 600 (quick) / 3*10^4 (thorough) hunt histories with the real spoof loops, and 5*10^3 / 5*10^5 generated router advertisements whose recorded router entry is compared field by field with an independent decoder.',
     level_note='Bounded liveness only (one spoof period on the virtual clock). Trusted base: refdec and the bubble stepping.')
+
+PROPS['C19'] = dict(
+    runs=[run('race', race=True)], shards=16, watchdog=True, level='exploration',
+    rule=('scenarios in synctest bubbles under the race detector: 1..8 concurrent Ping / Ping6 calls to distinct destinations with time-outs 0.5 s .. 10 s and out-of-range values (0, negative, 11 s: '
+          'documented default 2 s); the identifier of each is read from its own echo request on the recorder; generated arrivals are parsed at chosen virtual instants strictly before or after each '
+          'time-out: the matching echo reply (half-way, 1 ms before, 1 ms after the time-out, or never), replies with an unused identifier, echo requests carrying the same identifier, truncated '
+          'ICMP, duplicate replies; a send error is injected into some pings. Oracle: nil iff a matching reply was parsed before the time-out (and the call returns at that instant), ErrTimeout '
+          'exactly at the time-out otherwise, the send error on a failed write, distinct identifiers, no waiter left (hook VerifICMPWaiters). Non-trivial = a scenario whose pings all returned; '
+          'distinct = (number of pings, set of outcome/arrival kinds)'),
+    assumptions=['synctest virtual time: arrivals and time-outs never coincide', 'cross-family replies (ICMPv6 reply carrying the identifier of an ICMPv4 ping) are not generated: the statement does not say'],
+    min_obs={'quick': {'pings': 8000, 'scenarios_ok': 1500}, 'thorough': {'pings': 8000}},
+    timeout={'quick': 1200, 'thorough': 6*3600},
+)
+META['C19'] = dict(
+    technique='runtime scenario monitoring under the race detector on virtual time: concurrent pings vs scheduled matching / foreign / malformed replies, waiter-table hook',
+    level_text='Exploration: 3*10^3 (quick) / 2*10^5 (thorough) scenarios of up to 8 concurrent pings; each ping result and return instant is compared with what the arrival schedule implies; the waiter table must be empty afterwards.',
+    level_note='Trusted base: the scenario generator never schedules an arrival at a time-out instant; identifiers are read from the wire.')
